@@ -850,6 +850,15 @@ def fam_xof(rng):
         if p + 64 <= U64:
             ops.append({"op": "read", "n": 64})
         add(1025, ops)
+    # equal-sized reads in a row (subkey loops): sizes that divide / straddle the 64-byte block, so that reads of
+    # every such size start at block boundaries with a non-zero block counter
+    for k in (8, 16, 24, 32, 40, 48, 56, 64, 96, 128, 160, 192):
+        add(1025, [{"op": "fill", "n": k} for _ in range(max(6, 512 // k))])
+        add(7, [{"op": "read", "n": k} for _ in range(max(6, 512 // k))])
+    for p in (64, 128, 4096, 64 * ((1 << 32) - 1), 64 * (1 << 32)):
+        for k in (1, 8, 16, 31, 32, 33, 48, 64):
+            add(5, [{"op": "set", "v": p}, {"op": "fill", "n": k}, {"op": "fill", "n": k}, {"op": "set", "v": p},
+                    {"op": "read", "n": k}, {"op": "fill", "n": 64 - (k % 64)}, {"op": "fill", "n": k}])
     # seeks
     add(10, [{"op": "fill", "n": 100}, {"op": "seek", "kind": "current", "v": -36}, {"op": "fill", "n": 10},
              {"op": "seek", "kind": "current", "v": -74}, {"op": "fill", "n": 70},
